@@ -1041,6 +1041,8 @@ class SymArr:
 def sym_eq(a, b):
     """Return a z3 Bool / Python bool stating a == b for (nested) observable
     values.  Structure mismatches give False."""
+    if a is None or b is None:
+        return a is b           # an unassigned variable equals only an unassigned variable
     if isinstance(a, SymArr) or isinstance(b, SymArr):
         if not (isinstance(a, SymArr) and isinstance(b, SymArr)):
             return False
